@@ -2,7 +2,9 @@
 // Directory::copy/move inside a private scratch directory, compares the results of the calls (read(), readLine loops,
 // return values) with the ones in the history, and after the last call compares what fresh File/TextFile objects report
 // for every path (exists, size, content, firstBytes, chunked read, text, lines, readLine loop) and what POSIX read()
-// finds on disk with the specification's observation.  Byte strings travel run-length coded.
+// finds on disk with the specification's observation; when the specification says so (hq) the long-lived object itself
+// is asked as well (size, isFile, exists, content, text, lines).  "hq" steps of a history are queries through the long-
+// lived object between its own writes, closes and reopens (FileModel!HQuery).  Byte strings travel run-length coded.
 #include "c17_common.h"
 #include "vrun.h"
 
@@ -198,6 +200,39 @@ static Outcome runCase(const vj::Value& c)
 			if (k != (int)want.size() || buf.compare(0, (size_t)(k < 0 ? 0 : k), want) != 0)
 				FAIL("read(%d) returned %d bytes %s, specification says %s", n, k, show(buf.substr(0, (size_t)(k < 0 ? 0 : k))).c_str(), show(want).c_str());
 		}
+		else if (op == "hq")
+		{
+			// a query through the long-lived object itself; the specification's HQuery says what it returns and in which
+			// state (open for reading or not) it leaves the object
+			std::string what = o["k"].s();
+			const vj::Value& r = o["r"];
+			if (what == "size")
+			{
+				Long sz = h.size();
+				if (sz != r[(size_t)0].ll()) FAIL("h.size() = %lld, specification says %lld", (long long)sz, r[(size_t)0].ll());
+			}
+			else if (what == "exists" || what == "isfile")
+			{
+				bool b = what == "exists" ? h.exists() : h.isFile();
+				if ((int)b != r[(size_t)0].i()) FAIL("h.%s() = %d, specification says %d", what == "exists" ? "exists" : "isFile", (int)b, r[(size_t)0].i());
+			}
+			else if (what == "content" || what == "first" || what == "text")
+			{
+				std::string want = unrle(r);
+				std::string got = what == "content" ? fromBytes(h.content()) : what == "first" ? fromBytes(h.firstBytes(o["n"].i())) : fromStr(h.text());
+				if (got != want) FAIL("h.%s() = %s, specification says %s", what.c_str(), show(got).c_str(), show(want).c_str());
+			}
+			else if (what == "lines" || what == "loop")
+			{
+				Array<String> ls;
+				if (what == "lines") ls = h.lines();
+				else if (step & 1) while (!h.end()) ls << h.readLine();
+				else while (!h.end()) { String s2; h.readLine(s2); ls << s2; }
+				std::string why;
+				if (!sameLines(ls, o["ls"], why)) FAIL("h.%s: %s", what.c_str(), why.c_str());
+			}
+			else FAIL("harness: unknown query");
+		}
 		else if (op == "hlines")
 		{
 			Array<String> ls;
@@ -219,6 +254,41 @@ static Outcome runCase(const vj::Value& c)
 	// the object must still agree with the specification's mode, and closing it must leave exactly the content
 	std::string hm = c["hm"].s();
 	if ((hm != "closed") != !!h) FAIL("object is %s, specification says mode %s", !!h ? "open" : "closed", hm.c_str());
+	if (c["hq"].b)
+	{
+		// the specification says h is closed and may be asked about its path (HQuery enabled): the long-lived object itself,
+		// with whatever it went through in this history, must report what the specification holds for p
+		// (the steps are the transitions HQuery(size), HQuery(isfile), HQuery(content), HClose, HQuery(text), HClose,
+		//  HQuery(lines), HClose, HQuery(size), HQuery(exists) of the specification; queries do not change the file, so the results are exp[p])
+		const vj::Value& e = exp[(size_t)0];
+		opname = "final query through h";
+		bool ex = e["ex"].b;
+		Long sz = h.size();
+		if (sz != e["size"].ll()) FAIL("h.size() = %lld, specification says %lld", (long long)sz, e["size"].ll());
+		if (h.isFile() != ex) FAIL("h.isFile() = %d, specification says %d", (int)!ex, (int)ex);
+		std::string wantc = unrle(e["c"]);
+		std::string got = fromBytes(h.content());
+		if (got != wantc) FAIL("h.content() = %s, specification says %s", show(got).c_str(), show(wantc).c_str());
+		if (ex != !!h) FAIL("h is %s after content() of %s file", !!h ? "open" : "closed", ex ? "an existing" : "a missing");
+		h.close();
+		if (e["tdef"].b)
+		{
+			std::string wt = unrle(e["text"]);
+			got = fromStr(h.text());
+			if (got != wt) FAIL("h.text() = %s, specification says %s", show(got).c_str(), show(wt).c_str());
+			h.close();
+		}
+		if (e["txt"].b)
+		{
+			std::string why;
+			if (!sameLines(h.lines(), e["lines"], why)) FAIL("h.lines() %s", why.c_str());
+			h.close();
+		}
+		sz = h.size();
+		if (sz != e["size"].ll()) FAIL("h.size() = %lld after the queries, specification says %lld", (long long)sz, e["size"].ll());
+		if (h.exists() != ex) FAIL("h.exists() = %d, specification says %d", (int)!ex, (int)ex);   // (last: exists() looks the file up afresh)
+		opname = "final";
+	}
 	h.close();
 	std::string disk, want = unrle(exp[(size_t)0]["c"]);
 	bool onDisk = posixRead(P.p, disk);
